@@ -20,6 +20,8 @@
 From Coq Require Import String.
 From Verif Require Import Lib.Base Lib.Sx Lib.GoSem Model.Amf0 Model.RtmpPacket.
 From Verif Require Import Gen.Gen_rtmp Proofs.Amf0 Proofs.RtmpPacket Proofs.RtmpPacketTx Proofs.RtmpPacketGen Proofs.RtmpPacketWf.
+From Verif Require Model.RtmpChunk Proofs.RtmpChunk Proofs.RtmpChunkRT.
+From Verif Require Import Proofs.RtmpEndToEnd.
 Open Scope N_scope.
 
 (* The constants the statements below mention are the protocol's (regenerated from rtmp.go). *)
@@ -385,6 +387,120 @@ Example c03_short_command_regression :
   fst (decode_message [(f_two, cCreateStream)] 20 (short cResult)) = Err 19.
 Proof. vm_compute. repeat split. Qed.
 
+(* ---- end to end: packet layer composed with the chunk layer of C01 ----
+   Definitions in Proofs/RtmpEndToEnd.v.  An [endpoint] is one Protocol: its outstanding-request
+   table, its output chunk size and its chunk-reader state (Model/RtmpChunk.v).
+   [write_packet e p sid] = WritePacket: marshal, message of type Type() on chunk stream BetterCid()
+   with stream id uint32(sid), the request registered BEFORE the bytes are written, then C01's
+   write_message; [read_packet] = C01's read_message (arrival hook included) followed by
+   decode_message on the reader's own table.
+   A conversation [bs] is a list of bursts (sender, packets): the sender writes the burst, the
+   peer reads it; [run_conv fuel cutf sid a b bs] executes it with the wire of every burst cut
+   into transport reads by the arbitrary function [cutf].
+   Hypotheses, all explicit:
+     cut_ok cutf      the cuts preserve the byte stream (any segmentation, down to single bytes,
+                      empty reads included)
+     fuel_ok fuel bs  the chunk reader's loop bound exceeds every payload length
+     in_sync a b      both directions agree on the chunk size in force and no message is half
+                      read (true for two fresh Protocols: c03_fresh_in_sync)
+     conv_ok ta tb bs ta2 tb2   every packet is [wire_ok] (well-formed, payload < 2^24 bytes, a Set
+                      Chunk Size announces a size in [1, 2^31-1] -- C01's wf_msg) and [deliverable]:
+                      a control packet, a request or generic call carrying its protocol name
+                      (connect with id 1.0 by well-formedness), or a response whose transaction id
+                      is outstanding AT THE RECEIVER (a connect for a connect response, a
+                      createStream for a createStream response); ta/tb are the tables of A/B, moved
+                      by on_packet_written of what each endpoint itself sends and by the
+                      consumption of answered requests.
+   Conclusion: every burst is written without error and the peer's ReadMessage + DecodeMessage
+   loop returns exactly the packets written, each as itself (hence with the type of c03_dispatch
+   and re-marshalling to the payload); the final tables are the predicted ones and the endpoints
+   are in sync again, so the theorem composes. *)
+Theorem c03_end_to_end bs fuel cutf sid a b ta2 tb2 :
+  cut_ok cutf -> fuel_ok fuel bs -> in_sync a b ->
+  conv_ok (ep_tx a) (ep_tx b) bs ta2 tb2 ->
+  let '(outs, (a', b')) := run_conv fuel cutf sid a b bs in
+  Forall2 outs_ok outs (expected_outs bs) /\
+  ep_tx a' = ta2 /\ ep_tx b' = tb2 /\ in_sync a' b'.
+Proof. exact (end_to_end bs fuel cutf sid a b ta2 tb2). Qed.
+
+Theorem c03_fresh_in_sync : in_sync ep0 ep0.
+Proof. exact in_sync_ep0. Qed.
+
+(* one direction, stated on the transport itself: whatever follows the burst on the wire ([x])
+   and however the bytes arrive ([i] with the same concatenation), the peer reads exactly the
+   packets and leaves exactly [x]; the sender's table has registered its requests, the
+   receiver's has consumed the answered ones, both sides continue with the same chunk size *)
+Theorem c03_end_to_end_burst ps es er sid tr' :
+  Forall wire_ok ps -> 0 < ep_out es -> RtmpChunk.in_chunk (ep_rs er) = ep_out es ->
+  RtmpChunkRT.all_idle (ep_rs er) -> delivered (ep_tx er) ps tr' ->
+  exists ws es' er',
+    write_packets es ps sid = (map Ok ws, es') /\
+    ep_tx es' = fold_left on_packet_written ps (ep_tx es) /\ ep_rs es' = ep_rs es /\
+    ep_tx er' = tr' /\ ep_out er' = ep_out er /\
+    0 < ep_out es' /\ RtmpChunk.in_chunk (ep_rs er') = ep_out es' /\ RtmpChunkRT.all_idle (ep_rs er') /\
+    forall (i : RtmpChunk.inp) (x : bytes) fuel,
+      Proofs.RtmpChunk.flat i = concat ws ++ x -> Forall (fun p => (length (marshal p) < fuel)%nat) ps ->
+      exists i', read_packets fuel (length ps) er i = Ok (map Ok ps, er', i') /\ Proofs.RtmpChunk.flat i' = x.
+Proof. exact (e2e_burst ps es er sid tr'). Qed.
+
+(* ExpectPacket on the wire: the packets before the first wanted one are read, decoded and
+   skipped; that one is returned with its index and its request (if it is a response) consumed *)
+Theorem c03_end_to_end_expect_packet pre es er sid p post tr1 (want : pkt -> bool) :
+  Forall wire_ok (pre ++ p :: post) ->
+  0 < ep_out es -> RtmpChunk.in_chunk (ep_rs er) = ep_out es -> RtmpChunkRT.all_idle (ep_rs er) ->
+  delivered (ep_tx er) pre tr1 -> deliverable tr1 p ->
+  Forall (fun q => want q = false) pre -> want p = true ->
+  exists ws es' er' i',
+    write_packets es (pre ++ p :: post) sid = (map Ok ws, es') /\
+    forall fuel k, Forall (fun q => (length (marshal q) < fuel)%nat) (pre ++ [p]) ->
+      expect_packet_wire fuel (S (length pre)) want er [concat ws] k
+      = Ok (k + N.of_nat (length pre), p, er', i') /\
+      ep_tx er' = table_after tr1 p.
+Proof. exact (expect_packet_e2e pre es er sid p post tr1 want). Qed.
+
+(* non-vacuity: connect / _result (+ window ack size, set chunk size 4096) / createStream /
+   _result / publish from A to B, then a createStream of B answered by A: a valid conversation
+   from two fresh endpoints; executed with ONE BYTE per transport read every packet arrives as
+   itself, and both tables are empty at the end (every request answered) *)
+Definition f_three : N := 4613937818241073152.      (* 3.0 *)
+Definition ex_conv : list burst :=
+  [(false, [ex_connect]);
+   (true, [PWinAck 2500000; PSetChunkSize 4096; PConnectRes cResult f_one ex_obj None]);
+   (false, [ex_create_stream]);
+   (true, [ex_cs_res]);
+   (false, [ex_publish; PUserControl 3 1 3000]);
+   (true, [PCreateStream cCreateStream f_three (Some ANull)]);
+   (false, [PCreateStreamRes cResult f_three (Some ANull) f_two])].
+
+Ltac wire_ok_tac := repeat constructor; try (vm_compute; reflexivity); try lia.
+Ltac deliv_tac :=
+  repeat (first [ apply dl_nil
+                | eapply dl_cons;
+                  [first [ left; reflexivity | right; left; reflexivity
+                         | right; right; vm_compute; auto ]|] ]).
+
+Example c03_end_to_end_nonvacuous :
+  conv_ok [] [] ex_conv [] [] /\ fuel_ok 300 ex_conv /\
+  map snd (fst (run_conv 300 byte_reads 1 ep0 ep0 ex_conv))
+  = map (fun b => Ok (map Ok (snd b))) ex_conv /\
+  cut_ok byte_reads /\ cut_ok one_read.
+Proof.
+  split; [|split; [|split; [|split]]].
+  - unfold ex_conv.
+    eapply co_a; [wire_ok_tac|deliv_tac|].
+    eapply co_b; [wire_ok_tac|deliv_tac|].
+    eapply co_a; [wire_ok_tac|deliv_tac|].
+    eapply co_b; [wire_ok_tac|deliv_tac|].
+    eapply co_a; [wire_ok_tac|deliv_tac|].
+    eapply co_b; [wire_ok_tac|deliv_tac|].
+    eapply co_a; [wire_ok_tac|deliv_tac|].
+    vm_compute. apply co_nil.
+  - repeat constructor; vm_compute; lia.
+  - vm_compute. reflexivity.
+  - exact byte_reads_ok.
+  - exact one_read_ok.
+Qed.
+
 Print Assumptions c03_constants.
 Print Assumptions c03_size.
 Print Assumptions c03_roundtrip.
@@ -423,6 +539,10 @@ Print Assumptions c03_expect_message.
 Print Assumptions c03_expect_message_none.
 Print Assumptions c03_arrive_ok_control.
 Print Assumptions c03_arrive_ok_command.
+Print Assumptions c03_end_to_end.
+Print Assumptions c03_fresh_in_sync.
+Print Assumptions c03_end_to_end_burst.
+Print Assumptions c03_end_to_end_expect_packet.
 Print Assumptions rtmp_unmarshal_total.
 Print Assumptions rtmp_decode_total.
 Print Assumptions rtmp_expect_packet_total.
